@@ -148,6 +148,7 @@ struct Obj {
   // Global variable
   bool is_tentative;
   bool is_tls;
+  Obj *owner_fn; // for a block-scope static: the enclosing function
   char *init_data;
   Relocation *rel;
 
